@@ -34,6 +34,47 @@ def borderIdx (H W n : Nat) : List (Nat × Nat) :=
   block (pySlice H (some nI) (some (-nI))) (pySlice W none (some nI)) ++
   block (pySlice H (some nI) (some (-nI))) (pySlice W (some (-nI)) none)
 
+/-- one slice bound as the source writes it: absent, `n_pix_sample`, `-n_pix_sample` -/
+inductive SB where
+  | none | pos | neg
+deriving DecidableEq, Repr
+
+def SB.toBound (n : Nat) : SB → Option Int
+  | .none => Option.none
+  | .pos => some (n : Int)
+  | .neg => some (-(n : Int))
+
+/-- the gathered positions for an arbitrary list of `image[a:b, c:d]` slices, concatenated in order
+(`Gen.skySlices` is this list as read from the source) -/
+def borderIdxOf (sl : List (SB × SB × SB × SB)) (H W n : Nat) : List (Nat × Nat) :=
+  sl.flatMap fun s =>
+    block (pySlice H (s.1.toBound n) (s.2.1.toBound n)) (pySlice W (s.2.2.1.toBound n) (s.2.2.2.toBound n))
+
+/-- how `estimate_sky` treats a separately passed mask when the image may be a masked array itself -/
+inductive MaskRule where
+  | combine               -- `if mask is not None: image = masked_array(image, mask)` (numpy keeps the image's own mask)
+  | argIfImageUnmasked    -- `if not np.ma.is_masked(image) and mask is not None` (no masked pixel in the image)
+  | argIfNotMaskedArray   -- `if not isMaskedArray(image) and mask is not None`
+deriving DecidableEq, Repr
+
+def anyMasked (H W : Nat) (m : Nat → Nat → Bool) : Bool :=
+  (List.range H).any fun i => (List.range W).any fun j => m i j
+
+def maskOf (m : Option (Nat → Nat → Bool)) : Nat → Nat → Bool :=
+  fun i j => match m with | some f => f i j | none => false
+
+/-- the mask in force when the pixels are gathered: `own` is the mask the image carries as a numpy masked array
+(`none` for a plain array), `arg` the separately passed one -/
+def effMask (rule : MaskRule) (H W : Nat) (own arg : Option (Nat → Nat → Bool)) : Nat → Nat → Bool :=
+  match arg with
+  | none => maskOf own
+  | some a =>
+    let both := fun i j => maskOf own i j || a i j
+    match rule with
+    | .combine => both
+    | .argIfImageUnmasked => if anyMasked H W (maskOf own) then maskOf own else both
+    | .argIfNotMaskedArray => if own.isSome then maskOf own else a
+
 /-- positions whose values reach the statistics: border positions that are not masked -/
 def usedIdx (H W n : Nat) (mask : Nat → Nat → Bool) : List (Nat × Nat) :=
   (borderIdx H W n).filter fun p => !mask p.1 p.2
